@@ -8,6 +8,7 @@ package interp
 // renderings; the real byte syntax is outside.
 
 import (
+	"math"
 	"fmt"
 	"go/token"
 	"go/types"
@@ -169,6 +170,11 @@ func (e *encoder) encode(t types.Type, v value, depth int) {
 			e.w(fmt.Sprint(e.i.concIntVal(x)))
 		}
 	case float32, float64:
+		if f, ok := x.(float64); ok && e.json && (math.IsNaN(f) || math.IsInf(f, 0)) {
+			// encoding/json refuses these values
+			e.err = e.i.mkError(e.fr, "json: unsupported value: "+fmt.Sprint(f))
+			return
+		}
 		e.w(fmt.Sprint(x))
 	case *value:
 		if x == nil {
